@@ -6,7 +6,7 @@
 # (incremental builds); remove /tmp/vseed when done.
 set -u
 wt="$1"; shift
-sb=/tmp/vseed
+sb=${SEED_SB:-/tmp/vseed}
 mkdir -p $sb
 rsync -a --delete --exclude harness/target --exclude harness/target-scc --exclude replays --exclude .git --exclude seeded /verif/ $sb/
 grep -rl "/repo" $sb/check $sb/harness/Cargo.toml $sb/harness/src | xargs sed -i "s#/repo#$wt#g"
